@@ -112,12 +112,30 @@ def explore(w, report, cases, prop, harness_re, nmax, per_job_timeout, family, n
                 samples_by_rel.setdefault(rel, []).append({"harness": hname, "arg": j["arg"], "model": s["model"], "notes": s.get("notes") or [], "outcome": s["outcome"]})
             for cx in j.get("counterexamples") or []:
                 agg["cex"] += 1
-                # native confirmation is capped: 2 per case, 10 per run
-                is_hang = (cx.get("msg") or "").startswith("step limit")
-                if triaged.get(rel, 0) >= (1 if is_hang else 2) or sum(triaged.values()) >= 10:
-                    agg["cex_not_triaged"] = agg.get("cex_not_triaged", 0) + 1
-                    continue
-                triaged[rel] = triaged.get(rel, 0) + 1
+                # native confirmation is capped. Counterexamples that fit the pattern of a listed
+                # known finding are budgeted separately (1 per case and finding, 8 per run), so that
+                # they cannot use up the slots of a violation that is not listed (1 per case and
+                # message, 3 per case, 12 per run).
+                msg = cx.get("msg") or ""
+                is_hang = msg.startswith("step limit")
+                model = cx.get("model") or {}
+                pre = match_known(prop, {"case": c.id if c else rel, "tags": c.tags if c else [], "msg": msg, "model": model,
+                                         "input": model_bytes(model), "peg": c.peg if c else "", "native": {"notes": cx.get("notes") or []}})
+                if pre is not None:
+                    key = ("known", rel, pre["id"])
+                    if triaged.get(key, 0) >= 1 or triaged.get("known_total", 0) >= 8:
+                        agg["cex_not_triaged"] = agg.get("cex_not_triaged", 0) + 1
+                        continue
+                    triaged[key] = 1
+                    triaged["known_total"] = triaged.get("known_total", 0) + 1
+                else:
+                    key = ("new", rel, "hang" if is_hang else msg)
+                    if triaged.get(key, 0) >= 1 or triaged.get(("new", rel), 0) >= 3 or triaged.get("new_total", 0) >= 12:
+                        agg["cex_not_triaged"] = agg.get("cex_not_triaged", 0) + 1
+                        continue
+                    triaged[key] = 1
+                    triaged[("new", rel)] = triaged.get(("new", rel), 0) + 1
+                    triaged["new_total"] = triaged.get("new_total", 0) + 1
                 triage(w, report, prop, family, c, rel, hname, j["arg"], cx, confirm=confirm)
     # cross-validation of sampled paths against the native build
     rels = sorted(samples_by_rel)
